@@ -188,23 +188,33 @@ func (m *Machine) block(ready func() bool, what string) {
 	me.ready = nil
 }
 
-// yield lets other runnable coroutines run (runtime.Gosched and quiescence points).
+// yield lets the other coroutines run until none of them is runnable (runtime.Gosched and the
+// quiescence points of the harness intrinsics): every other coroutine is blocked or finished when
+// it returns. Virtual time does not advance here.
 func (m *Machine) yield() {
 	s := m.sched
 	me := s.cur
-	first := true
-	m.block(func() bool {
-		if first {
-			first = false
-			// runnable others?
-			for _, co := range s.cos {
-				if co != me && !co.done && (co.ready == nil || co.ready()) {
-					return false
-				}
+	for rounds := 0; rounds < 100000; rounds++ {
+		others := false
+		for _, co := range s.cos {
+			if co != me && !co.done && (co.ready == nil || co.ready()) {
+				others = true
+				break
 			}
 		}
-		return true
-	}, "yield")
+		if !others {
+			return
+		}
+		first := true
+		m.block(func() bool {
+			if first {
+				first = false
+				return false
+			}
+			return true
+		}, "yield")
+	}
+	m.path.end("bound: yield did not reach quiescence")
 }
 
 // drainAborted makes every remaining coroutine unwind.
@@ -428,9 +438,13 @@ func (m *Machine) fire(t *vtimer) {
 	}
 }
 
-// advanceClock moves virtual time forward by d, firing the timers that become due (in order).
+// advanceClock moves virtual time forward by d the way a testing/synctest bubble does: time only
+// moves while every coroutine is blocked. First the other coroutines run to quiescence at the
+// current instant; then the due timers fire one at a time in order, each followed by a run to
+// quiescence at that instant (so timers created by the woken coroutines are relative to it).
 func (m *Machine) advanceClock(d int64) {
 	target := m.clock + d
+	m.yield()
 	for {
 		var best *vtimer
 		for _, t := range m.timers {
@@ -445,6 +459,7 @@ func (m *Machine) advanceClock(d int64) {
 			m.clock = best.when
 		}
 		m.fire(best)
+		m.yield()
 	}
 	m.clock = target
 }
